@@ -329,7 +329,8 @@ pub fn gen_expr(rng: &mut Rng, s: &Schema, ty: &Ty, depth: u32, cfg: &ExprCfg) -
             11 => {
                 let name = if cfg.readme_names && rng.chance(1, 2) { "regex_matches" } else { "regexp_matches" };
                 let pat = if rng.chance(1, 10) { "(" } else { *rng.pick(&["a", "^a", "b$", "[0-9]+", "^$", "a|b", ".b"]) };
-                call(name, vec![g!(Ty::Text), text(pat)])
+                // the pattern is usually a literal; it may as well come from the row (another pattern on every row)
+                if rng.chance(1, 4) { call(name, vec![g!(Ty::Text), g!(Ty::Text)]) } else { call(name, vec![g!(Ty::Text), text(pat)]) }
             }
             12 => leaf(rng, s, ty, cfg),
             _ => gen_case(rng, s, ty, d, cfg),
